@@ -643,7 +643,10 @@ def iter_patched_from_hunks(orig_lines, hunks):
         orig_lines = iter(orig_lines)
     for hunk in hunks:
         while line_no < hunk.orig_pos:
-            orig_line = next(orig_lines)
+            try:
+                orig_line = next(orig_lines)
+            except StopIteration:
+                raise PatchConflict(line_no, b"", b"".join(seen_patch)) from None
             yield orig_line
             line_no += 1
         for hunk_line in hunk.lines:
